@@ -67,6 +67,13 @@ def instances(tier):
             out.append(('oneway3', NAMED['oneway3'], dict(fam=fam, T=2, ne=True, **MD), ops_for([1, 2]), {}))
             out.append(('oneway2', NAMED['oneway2'], dict(fam=fam, T=4, ne=False, **MD), ops_for([3, 4]), {}))
         out.append(('line2', NAMED['line2'], dict(fam='simple_n', T=2, ne=False, **MD), ops_for([1, 2]), {}))
+        # extension combined with width pruning: the column at the old/new boundary holds more live candidates than the width
+        for fam in ('simple', 'dist'):
+            for sp in ([2, 3], [1, 3], [1, 2, 3]):
+                out.append(('line2', NAMED['line2'], dict(fam=fam, T=3, ne=False, width=1, **NOSYM), ops_for(sp), {}))
+            out.append(('fork', NAMED['fork'], dict(fam=fam, T=3, ne=False, width=1, **NOSYM), ops_for([2, 3]), {}))
+            out.append(('fork', NAMED['fork'], dict(fam=fam, T=3, ne=True, width=1, **NOSYM), ops_for([2, 3]), {}))
+            out.append(('fork', NAMED['fork'], dict(fam=fam, T=3, ne=False, width=2, **NOSYM), ops_for([1, 3]), {}))
     else:
         gs = [x for x in library(3, named=('fork', 'oneway4')) if len([1 for u in x[1] for v in x[1][u]]) <= 4]
         for name, g in gs:
@@ -77,6 +84,10 @@ def instances(tier):
                         for sp in splits(T):
                             for sym in (MD, MP, NOSYM):
                                 out.append((name, g, dict(fam=fam, T=T, ne=ne, **sym), ops_for(sp), {}))
+                            if nedge >= 2:
+                                out.append((name, g, dict(fam=fam, T=T, ne=ne, width=1, **NOSYM), ops_for(sp), {}))
+                                if nedge >= 3:
+                                    out.append((name, g, dict(fam=fam, T=T, ne=ne, width=2, **MD), ops_for(sp), {}))
     return out
 
 
@@ -94,8 +105,8 @@ def main(tier):
     budget = 60 if tier == 'quick' else 900
     res = gabs.run_all(rep, run_instance, instances(tier), budget, 16 * (100 if tier == 'quick' else 900))
     rep.bounds = dict(graphs="oneway2, line2, oneway3, oneway4" if tier == 'quick' else "all digraphs <=3 nodes/<=4 edges, fork, oneway4",
-                      T="<=4 (2-edge graphs) / 3", splits="every one- and two-cut schedule", config="max_dist or min_prob_norm symbolic (stop before/inside/after the prefix reachable); non-emitting on/off")
-    rep.outside = ["rounding", "graphs/traces beyond the bound", "width pruning combined with extension (C09 covers well-formedness there)"]
+                      T="<=4 (2-edge graphs) / 3", splits="every one- and two-cut schedule", config="max_dist or min_prob_norm symbolic (stop before/inside/after the prefix reachable); non-emitting on/off; lattice width None, 1, 2")
+    rep.outside = ["rounding", "graphs/traces beyond the bound", "widths above 2"]
     rep.assumptions = ["AbsMap contract", "halfnorm formula shim", "exactly equally probable alternatives may be chosen differently"]
     gabs.collect(rep, res, PID, need_tags=('complete', 'early_stop', 'early_stop_inside_first_prefix'))
     return rep.finish("relational symbolic execution: incremental schedule and one-shot match of the real matcher in one symbolic path over "
